@@ -53,7 +53,7 @@ FWD_OUTER, FWD_INNER = _forward_models()
 class Shared:
     def __init__(self):
         self.ctx = XmlContext()
-        self.fwd_serializer = XmlSerializer(context=self.ctx, config=SerializerConfig(xml_declaration=False, globalns={"FwdInner": FWD_INNER}), writer=XmlEventWriter)
+        self.fwd_serializer = XmlSerializer(context=self.ctx, config=SerializerConfig(xml_declaration=False, globalns={"FwdInner": FWD_INNER, "Optional": __import__("typing").Optional}), writer=XmlEventWriter)
         self.parser = XmlParser(context=self.ctx, handler=XmlEventHandler)
         self.serializer = XmlSerializer(context=self.ctx, config=SerializerConfig(xml_declaration=False), writer=XmlEventWriter)
         self.decoder = DictDecoder(context=self.ctx)
@@ -154,6 +154,25 @@ def _profile_one(op: str):
         del _DUMMIES[before:]
 
 
+def _profile_after(pair):
+    """Writes of operation y when it runs after operation x on the same objects: a store of a *different* value into an attribute
+    that x left behind is invisible when y is profiled alone on fresh objects (it stores what is already there)."""
+    x, y = pair
+    repo = os.environ.get("VERIF_REPO", "/repo")
+    before = len(_DUMMIES)
+
+    def roots():
+        r = _make_roots()
+        call(OPS[x], r["arg"])
+        return r
+    try:
+        return profile_writes(repo, roots, {y: OPS[y]})
+    finally:
+        for nm in _DUMMIES[before:]:
+            sys.modules.pop(nm, None)
+        del _DUMMIES[before:]
+
+
 def scheduler() -> Scheduler:
     """Built once in the parent process (workers inherit it by fork)."""
     global _SCHED
@@ -170,7 +189,11 @@ def scheduler() -> Scheduler:
         attrs: set = set()
         write_lines: dict = {}
         write_funcs: dict = {}
-        for prof in pmap(_profile_one, list(OPS)):
+        pairs = sorted({(x, y) for cfg in list(HARNESS_SETS.values()) + list(HARNESS_SETS_3.values())
+                        for i, ta in enumerate(cfg["threads"]) for j, tb in enumerate(cfg["threads"]) if i != j for x in ta for y in tb})
+        PROFILE["profiled_alone"] = len(OPS)
+        PROFILE["profiled_after_another_operation"] = len(pairs)
+        for prof in pmap(_profile_one, list(OPS)) + pmap(_profile_after, pairs):
             attrs |= prof["attrs"]
             for f, l in prof["write_lines"].items():
                 write_lines.setdefault(f, set()).update(l)
